@@ -234,6 +234,8 @@ def _resolve_aliases(node: ast.AST, scope: ast.AST, keep: Tuple[str, ...] = ()) 
             t, v = st.targets[0], st.value
             if isinstance(t, ast.Name) and isinstance(v, (ast.Subscript, ast.Attribute, ast.Name)) and len(astq.assignments(scope, t.id)) == 1:
                 alias[t.id] = v
+            elif isinstance(t, ast.Name) and isinstance(v, ast.Call) and isinstance(v.func, ast.Attribute) and v.func.attr == "get" and len(v.args) == 1 and not v.keywords and isinstance(v.func.value, ast.Name) and isinstance(v.args[0], ast.Name) and len(astq.assignments(scope, t.id)) == 1:
+                alias[t.id] = v  # a look-up `d.get(k)` bound once to a name
             elif isinstance(t, ast.Tuple) and isinstance(v, ast.Tuple) and len(t.elts) == len(v.elts):
                 for a, b in zip(t.elts, v.elts):
                     if isinstance(a, ast.Name) and isinstance(b, (ast.Subscript, ast.Attribute, ast.Name)) and len(astq.assignments(scope, a.id)) == 1:
@@ -279,11 +281,12 @@ def _duplicate_rule(chk, fi: FuncInfo, fm: FlowMap) -> None:
 
     reps = [s2 for s2 in ast.walk(fi.node) if isinstance(s2, ast.Assign) and norm(s2) == "unique_atoms[key] = atom"]
     loops = [l for l in fi.node.body if isinstance(l, ast.For) and any(r is n for r in reps for n in ast.walk(l))]
-    if len(reps) != 1 or len(loops) != 1:
+    if len(reps) < 1 or len(loops) != 1:
         chk.error("occupancy-wins", fi.where, "replacement site `unique_atoms[key] = atom` inside one loop over the atoms not found")
         return
     loop = loops[0]
-    NEW, KEPT = "atom.occupancy", "unique_atoms[key].occupancy"
+    NEW = "atom.occupancy"
+    STORED = ("unique_atoms[key]", "unique_atoms.get(key)")  # the copy kept so far (values of the map are atoms, never None)
     problems = []
     n_paths = 0
     for events, exit_ in PT.paths(loop.body):
@@ -295,9 +298,12 @@ def _duplicate_rule(chk, fi: FuncInfo, fm: FlowMap) -> None:
                 continue
             t = norm(_resolve_aliases(ev[3], loop, keep=("key", "atom")))
             val = ev[2]
-            if t == "key not in unique_atoms":
+            for sk in STORED:
+                t = t.replace(sk, "KEPT")
+            KEPT = "KEPT.occupancy"
+            if t in ("key not in unique_atoms", "KEPT is None"):
                 known["first"] = val
-            elif t == "key in unique_atoms":
+            elif t in ("key in unique_atoms", "KEPT is not None"):
                 known["first"] = not val
             elif _none_atom(t, NEW) is not None:
                 known["new_none"] = (_none_atom(t, NEW) == val)
@@ -311,7 +317,7 @@ def _duplicate_rule(chk, fi: FuncInfo, fm: FlowMap) -> None:
                 order.append(("cmp", ev[3], dict(known)))
             else:
                 unknown.append(t)
-        replaced = any(ev[0] == "stmt" and ev[1] is reps[0] for ev in events)
+        replaced = any(ev[0] == "stmt" and any(ev[1] is r for r in reps) for ev in events)
         n_paths += 1
         if unknown:
             problems.append(("error", loop, f"condition `{unknown[0][:70]}` in the duplicate filter not understood", "unknown"))
@@ -440,7 +446,9 @@ def _clash_rule(chk, fi: FuncInfo, fm: FlowMap) -> None:
     AI, AJ = f"{L}[{i}]", f"{L}[{j}]"
     problems = []
     n_paths = 0
-    for events, exit_ in PT.paths(cl.body):
+    from sa.normalize import split_ifexp
+
+    for events, exit_ in PT.paths(split_ifexp(cl.body)):
         known = {"diff_model": None, "i_none": None, "j_none": None, "i_higher": None}
         cmps = []
         unknown = []
@@ -467,6 +475,9 @@ def _clash_rule(chk, fi: FuncInfo, fm: FlowMap) -> None:
                 unknown.append((t, ev[3], val))
         n_paths += 1
         drops = [norm(a.args[0]) for a in PT.calls_on(events, "atoms_to_keep", "discard") + PT.calls_on(events, "atoms_to_keep", "remove") if a.args]
+        if any(d not in (i, j) for d in drops):
+            problems.append(("error", cl, f"the dropped position `{[d for d in drops if d not in (i, j)][0][:60]}` is neither `{i}` nor `{j}`", "unknown"))
+            continue
         for node, k in cmps:
             if k["i_none"] is not False or k["j_none"] is not False:
                 problems.append(("optional-occupancy", node, f"`{norm(node)[:80]}` is evaluated on a path where an occupancy was not established to be known: TypeError for atoms without occupancy", "clash-none"))
@@ -589,6 +600,15 @@ def check_model_selection(chk) -> None:
     for n, var in late_binding_sites(fi.node):
         chk.violation("late-binding", fi.site(n), f"`{norm(n)[:80]}` is a lazy iterator that captures the comprehension/loop variable `{var}` and is stored unevaluated: when it is finally consumed `{var}` has its last value, so every entry selects the same (last) model", K(fi, f"late-binding:{var}"))
     chk.ok("late-binding", fi.where, "no lazy iterator over a loop/comprehension variable escapes its iteration")
+    from checks import c08e
+
+    try:
+        if c08e.check_model_selection_eval(chk):
+            return  # decided by evaluation on representative files; the symbolic path reading below is the fallback
+    except AnalysisError:
+        raise
+    except Exception as ex:
+        chk.ok("model-selection-eval", fi.where, f"evaluation of read_3d_structure failed internally ({type(ex).__name__}): the symbolic path rule decides")
     FIRST_FORMS = ("list(AM.keys())[0]", "list(AM)[0]", "next(iter(AM))", "next(iter(AM.keys()))", "[*AM][0]", "min(AM)")
     AM_FORMS = ("{atom.model: None for atom in atoms}", "dict.fromkeys((atom.model for atom in atoms))", "dict.fromkeys([atom.model for atom in atoms])", "list(dict.fromkeys((atom.model for atom in atoms)))")
     results = {}
